@@ -1020,6 +1020,14 @@ def _decorate_with_invariants(func: CallableT, is_init: bool) -> CallableT:
             in_progress = _IN_PROGRESS.get()
 
             id_instance = id(instance)
+
+            # If the instance is already in progress, this constructor has been called from the constructor
+            # of a derived class (or from another method of the instance). The instance is not fully constructed yet,
+            # so the invariants can be checked only once the outermost constructor finishes. Moreover, we must not
+            # discard the in-progress mark which belongs to the outer call.
+            if id_instance in in_progress:
+                return func(*args, **kwargs)
+
             _IN_PROGRESS.set(in_progress | {id_instance})
 
             # ExitStack is not used here due to performance.
